@@ -56,9 +56,9 @@ def gen(rng, i):
     refs.append(final)
     refs.append(c["model"]["init"])
     if i % 2 == 0:
-        # back and forth: final, other, final, final — a state remembered for "the previous parameters" must not resurface
+        # back and forth: final, other, final[, final] — a state remembered for "the previous parameters" must not resurface
         other = rng.choice([a for a in pool if a != final] or [final])
-        ops += [["set", final], ["set", other], ["set", final]]
+        ops += [["set", final], ["set", other]] + ([["set", final]] if i % 4 == 0 else [])
     # the final state: queried repeatedly
     ops += [["set", final], ["observe"], ["jac"], ["observe"], ["jac"], ["observe"]]
     seen = []
